@@ -39,6 +39,16 @@ CHECKS = {
             "the group-level traces of C03/C06, not limb by limb.",
             "TLA+ spec of F_p; TLC trace validation of limb-level recorded executions on three backends",
             "5/C04"),
+    "C20": ("model_checking",
+            "Exhaustive over the finite space: every embedded constant and every table entry (32x8 fixed-base entries, two 64-entry "
+            "odd-multiple tables - packed bytes and the unpacked form -, the vector tables generated at start-up when AVX2 is live, the "
+            "eight torsion points, field/scalar/Montgomery/lattice/Elligator constants) is dumped by in-package overlay tests on the "
+            "default, purego and force32bit builds and recomputed by TLC from the definitions (d, B=(x,4/5), L, defining equations of the "
+            "square-root constants) with the Edwards module that is model-checked against the affine group law on toy curves.",
+            "Trusts TLC/SANY, BigNat/F25519/Edwards, Element.ToBytes for reading values (C04), the sign conventions of RFC 9496 / dalek for "
+            "square-root constants. RISTRETTO_BASEPOINT_COMPRESSED is checked under C11.",
+            "TLA+ definitions recomputed by TLC and compared with every dumped constant/table entry on three builds",
+            "5/C20"),
 }
 
 NOT_YET = "check not built yet in this round (planned, see DESIGN.md section 11); not claimed until its machinery exists"
